@@ -42,18 +42,8 @@ pub fn run(tier: Tier) -> Outcome {
     assemble(
         "C02",
         runs,
-        &[
-            "deposit:ok:ledger_delta_checked",
-            "withdraw:ok:ledger_delta_checked",
-            "withdraw_all:ok:slot_deactivated",
-            "repay_all:ok:slot_deactivated",
-            "borrow:ok:ledger_delta_checked",
-            "liquidate:ok:ledger_delta_checked",
-            "bankruptcy:ok",
-            "transfer_account:ok",
-            "close_balance:*",
-            "close_account:*",
-        ],
+        &["deposit:ok:ledger_delta_checked", "withdraw:ok:ledger_delta_checked", "borrow:ok:ledger_delta_checked"],
+        &["withdraw_all:ok:slot_deactivated", "repay_all:ok:slot_deactivated", "liquidate:ok:ledger_delta_checked", "bankruptcy:ok", "transfer_account:ok", "close_balance:ok", "close_account:ok"],
         "every action sequence up to the depth bound over the user/liquidator/admin alphabet incl. transfer-account, close-balance, close-account, bankruptcy, close-bank; after every committed transaction, for every bank: delta(total shares) == sum over all accounts of delta(position shares), bit-exact in raw I80F48, except on steps that deactivate a slot where the abandoned remainder must be in [0, 0.0001) units; globally totals >= sum(positions) >= 0 within the counted dust budget",
         vec![
             "environment model E1 (svm-lite) stands in for the Solana runtime".into(),
